@@ -1,4 +1,5 @@
 import Sparrow.Proofs.StokesLemmas
+import Sparrow.Proofs.StokesConstants
 /-
   C05 — Form factors obey bounds, reciprocity, closure and similarity invariance.
   Model: Sparrow/Model/Stokes.lean (contour integrator, dispatch, baked matrix),
@@ -61,5 +62,14 @@ theorem stokes_axis_swap (cut : ℝ) (pi pj : Nat → Vec3 ℝ) (ni nj : Nat) (a
     stokesFF cut (fun k => ⟨(pi k).y, (pi k).x, (pi k).z⟩) (fun k => ⟨(pj k).y, (pj k).x, (pj k).z⟩) ni nj areaI =
       stokesFF cut pi pj ni nj areaI :=
   Sparrow.stokes_axis_swap cut pi pj ni nj areaI
+
+/-- The integrator constants regenerated from `/repo` are the ones the model's dispatch and
+    integrators use (Boole weights, samples per edge, per-axis cut-off, Nusselt sample count,
+    vertex-coincidence threshold `1e-6` deciding between the Nusselt and the contour integrator). -/
+theorem integrator_constants_as_modelled :
+    Generated.booleWeights = [7, 32, 12, 32, 7] ∧ Generated.booleNum = 2 ∧ Generated.booleDen = 45 ∧
+    Generated.booleWeights.sum = 90 ∧ Generated.stokesNPoints = 5 ∧ Generated.stokesCutoff = (1, 1000) ∧
+    Generated.nusseltSamples = 64 ∧ Generated.coincidenceThreshold = (1, 1000000) :=
+  Sparrow.boole_weights_as_modelled
 
 end Sparrow.Props.C05
